@@ -26,9 +26,9 @@ using namespace chaiscript;
 
 namespace {
 
-  enum Ty { INT, DBL, BOOL, STR, BASE, DERIVED, OTHER, VEC, FN, ANY, NUM, N_TY };
+  enum Ty { INT, DBL, BOOL, STR, BASE, DERIVED, OTHER, VEC, FN, ANY, NUM, CHR, N_TY };
   enum Form { VAL, CREF, REF, PTR, CPTR, SP, SPC, N_FORM };
-  const char *ty_names[] = {"int", "double", "bool", "string", "Base", "Derived", "Other", "Vector", "function", "Boxed_Value", "Boxed_Number"};
+  const char *ty_names[] = {"int", "double", "bool", "string", "Base", "Derived", "Other", "Vector", "function", "Boxed_Value", "Boxed_Number", "char"};
   const char *form_names[] = {"T", "const T&", "T&", "T*", "const T*", "shared_ptr<T>", "shared_ptr<const T>"};
 
   struct Base6 {
@@ -212,12 +212,16 @@ namespace {
         {"[1, 2]", VEC, false, true, "vec:2", 0},
         {"fun(x) { x + 1 }", FN, false, true, "fn:4", 0},
         {"fun(x) { \"s\" }", FN, false, true, "fn:bad_boxed_cast", 0},
+        // a one-byte signed value below zero (no parameter of the catalogue has this type: it only
+        // arrives through arithmetic conversion, which must keep its value)
+        {"neg_char()", CHR, false, true, "char:-61", -61},
+        {"fun(x) { neg_char() }", FN, false, true, "fn:-61", 0},
     };
     return a;
   }
   const char *ACTOR_PRELUDE = "var vi = 7; var vd = 1.5; var vs = \"abc\"; var vb = Base(11); var vder = Derived(22); var voth = Other(33);";
 
-  bool arithmetic(Ty t) { return t == INT || t == DBL; }
+  bool arithmetic(Ty t) { return t == INT || t == DBL || t == CHR; }
 
   // may a parameter (ty, form) legitimately receive this argument?  conv = Derived->Base registered
   // expected_out: the descriptor the function must then log
@@ -367,6 +371,7 @@ namespace {
       e.add(user_type<Other6>(), "Other");
       e.add(constructor<Other6(int)>(), "Other");
       e.add(fun([]() -> const Base6 & { return the_const_base; }), "const_base");
+      e.add(fun([]() { return static_cast<char>(-61); }), "neg_char");
 
       std::vector<std::vector<size_t>> mine(static_cast<size_t>(T));
       for (size_t i = 0; i < ops.size(); ++i) {
